@@ -661,7 +661,8 @@ class Cmp:
         kind = "changed" if (i < n and type(ins[i]) is type(o)) else "added"
         v = V("STRUCT", (kind, type(o).__name__), "statement %s: %s" % (kind, _one_line(o)))
         opts.append(cat(((v,), ()), best(i + (1 if kind == "changed" else 0), j + 1)))
-      return min(opts, key=lambda t: len(t[0]))
+      # fewest violations; among equals prefer the reading in which the input's own statements are intact
+      return min(opts, key=lambda t: (len(t[0]), sum(1 for v in t[0] if v[0] in ("EXISTING", "STRUCT"))))
     return best(0, 0)
 
 
@@ -1062,7 +1063,7 @@ def work(item):
   if mode == "inf":
     try:
       pyi = _infer(src, True)
-    except Exception as e:  # pylint: disable=broad-except
+    except Exception:  # pylint: disable=broad-except
       bump("out:inferred:analysis-exception")
       return stats, cands
     if re.search(r"\bAny\b|\bNever\b", pyi):
@@ -1113,7 +1114,7 @@ def run(rep, tier, seed):
         items.append(("gen", src, spec, part, ty))
   tot, best = {}, {}
   t0 = time.time()
-  for item, (stats, cands) in vrun.pmap(work, items, seed=seed, chunksize=1, progress=2000 if tier != "quick" else None):
+  for item, (stats, cands) in vrun.pmap(work, items, seed=seed, chunksize=1):
     for k, v in stats.items():
       tot[k] = tot.get(k, 0) + v
     for sig, c in cands.items():
@@ -1164,7 +1165,9 @@ def run(rep, tier, seed):
       "an added import counts as a 'typing import the merge added' only if the stub has that import; an added TypeVar assignment only if the stub has it",
       "a module-level bare `name: T` declaration is an annotation of the module-level variable `name`",
       "one VIOLATION per root-cause signature (kind + site kind), reported on the smallest failing pair after greedy minimisation and canonical renaming",
-      "run-time validity of inserted annotations (e.g. a TypeVar bound to a class defined later) is outside the property",
+      "run-time validity of inserted annotations is outside the property: a TypeVar bound to a class defined later, or an inserted "
+      "annotation whose text equals the stub's but whose typing import the merge did not add (seen for names used only in "
+      "keyword-only / positional-only parameter annotations), is not flagged",
   ]
 
 
